@@ -41,6 +41,12 @@ CHECKS = {
         design_ref="§6 C18",
         note="counts below the model (early termination of slices) are counted as drift, not violations",
     ),
+    "C19": dict(
+        technique="TLA+ spec Names (TLC exhaustive over thread interleavings of the three counter accesses) + schedule replay: real threads driven through every TLC interleaving by intercepting the engine's counter accesses",
+        text="TLC enumerates every interleaving of Read-for-name / Read / Write of the non-atomic counter update for 2 threads x 2 requests on one engine (924 schedules), 3 threads on two engines (1680) and the sequential two-engine case, and proves names pairwise distinct and prefixed under the stated assumption that uuid4 draws are fresh; two companion configurations without the uuid component MUST fail (lost update on one engine; equal counters on two engines) and do. Every schedule is replayed with real threads: an Engine subclass blocks each thread before every read/write of relation_name_counter and a scheduler releases them in TLC's order; requests are issued directly, through LeafRelation construction and through materialized(); names must be pairwise distinct and prefixed, counters are compared with the model (lost updates are reproduced exactly). Free-running threads (switch interval 1 microsecond) on two engines add an unscheduled run.",
+        design_ref="§6 C19",
+        note="uniqueness rests on the assumption that uuid4 draws do not collide - the model shows the assumption is necessary, not that it holds; thorough adds 3 threads x 2 requests by simulation",
+    ),
     "C20": dict(
         technique=ITER,
         text="For every reachable IterProgram state TLC lists the ill-formed requests of a 24-entry menu (missing columns in calculation/projection/selection/sort, existing tag, column-free calculation, negative/reversed/stepped slices, chain with different columns or engine, engine-restricted functions) with the exception class the model predicts (invariant RejectsAll: every ill-formed request is rejected by the model); the replay issues each against the real relation, demands the documented class and an unchanged relation (repr/str/columns/bounds/hash).",
